@@ -1,0 +1,32 @@
+//go:build verif
+// +build verif
+
+package transport
+
+import "sync/atomic"
+
+// Verification hook (build tag verif only): the receive loop can be held in recv between conn.Read having
+// returned a request and numInvoke++ — the two instructions are not atomic — so that a test can let the shutdown
+// poller run inside that window.
+
+var (
+	verifC12Armed   int32
+	verifC12Reached = make(chan string, 1)
+	verifC12Resume  = make(chan struct{})
+)
+
+// VerifC12ArmBeforeCount makes the receive loop stop before its next handleConn (numInvoke++).
+func VerifC12ArmBeforeCount() { atomic.StoreInt32(&verifC12Armed, 1) }
+
+// VerifC12ReachedBeforeCount delivers the remote address of the connection whose receive loop is held.
+func VerifC12ReachedBeforeCount() <-chan string { return verifC12Reached }
+
+// VerifC12ResumeBeforeCount lets the held receive loop continue.
+func VerifC12ResumeBeforeCount() { verifC12Resume <- struct{}{} }
+
+func verifC12BeforeCount(c *connInfo) {
+	if atomic.CompareAndSwapInt32(&verifC12Armed, 1, 0) {
+		verifC12Reached <- c.conn.RemoteAddr().String()
+		<-verifC12Resume
+	}
+}
